@@ -59,286 +59,41 @@ def normalised(expr, param, ctx, module, depth=0):
 def run(ctx):
     m = ctx.model
     cd = m.cls("caselessdict.CaselessDict")
-    mod = cd.module
     ctx.explanation = (
-        "override completeness + key taint over CaselessDict and all its repo "
-        "subclasses; signature agreement with dict; __eq__ operand "
-        "normalisation; shape of canonsort_keys. Decides these structural "
-        "clauses, not equivalence to a reference dict over all histories.")
-    ctx.assume("collections.OrderedDict.__init__/__or__/__ior__/fromkeys store "
-               "through the overridden __setitem__/update/copy (CPython "
-               "behaviour); OrderedDict's own methods are correct")
-
-    # ---- OVERRIDES: key-taking operations --------------------------------
-    for op in KEY_OPS:
-        f = cd.methods.get(op)
-        if f is None:
-            ctx.fail("C17/OVERRIDES", f"CaselessDict.{op}",
-                     f"CaselessDict does not override {op}; dict's version "
-                     f"would see raw-case keys", cd.loc())
+        "model-based exploration by interpretation (E7, sa.mapmodel): the "
+        "CaselessDict family's own methods, run on top of a model of the builtin "
+        "OrderedDict they inherit from, on every sequence of mapping operations up "
+        "to the length bound (keys in either case, str and bytes; construction from "
+        "mappings, pairs and keywords; get/set/delete, membership, get, pop, "
+        "setdefault, update, copy, |, |=, ==), compared after every step with a "
+        "dictionary keyed by the upper-cased name; canonical ordering of every class "
+        "of the family against the stated order.")
+    ctx.assume("which inherited OrderedDict operations go through the instance's overridable "
+               "methods (established against CPython 3.12, see sa/mapmodel.py): __init__/update/"
+               "copy/|/|= store through __setitem__, setdefault uses __contains__ then "
+               "__getitem__/__setitem__, get/pop/popitem/keys/values/items act on the raw table")
+    from .. import mapmodel
+    mapmodel.report(ctx, "C17/MAP-MODEL", cd.loc())
+    # subclasses that override part of the mapping API are explored too (one step)
+    api = {"__getitem__", "__setitem__", "__delitem__", "__contains__", "get", "pop", "setdefault",
+           "update", "copy", "__eq__", "__ne__", "popitem", "has_key", "__or__", "__ior__", "__ror__",
+           "keys", "items", "values", "__iter__", "__len__", "clear"}
+    for sc in m.subclasses(cd):
+        own = sorted(set(sc.methods) & api)
+        if not own or sc.qualname in ("parser.Parameters", "cal.Component"):
             continue
-        keyp = f.params[1] if len(f.params) > 1 else None
-        if keyp is None:
-            ctx.fail("C17/OVERRIDES", f"CaselessDict.{op}",
-                     "override takes no key parameter", f.loc())
-            continue
-        env = SymEnv(f.node)
-        sup = [c for c in ast.walk(f.node)
-               if isinstance(c, ast.Call) and is_super_call(c)]
-        # storage may also be reached through self[...] (goes via overrides)
-        via_self = [n for n in ast.walk(f.node)
-                    if isinstance(n, ast.Subscript)
-                    and isinstance(n.value, ast.Name) and n.value.id == f.params[0]]
-        if not sup and not via_self:
-            ctx.fail("C17/OVERRIDES", f"CaselessDict.{op}",
-                     "override never reaches the underlying storage "
-                     "(no super() call, no self[...] access)", f.loc())
-            continue
-        good = True
-        for c in sup:
-            if not c.args:
-                good = False
-                ctx.fail("C17/OVERRIDES", f"CaselessDict.{op}",
-                         f"super().{c.func.attr}() called without a key", f.loc(c))
-                continue
-            k = env.expand_at(c.args[0])
-            if not normalised(k, keyp, ctx, mod):
-                good = False
-                ctx.fail("C17/OVERRIDES", f"CaselessDict.{op}",
-                         f"key reaching super().{c.func.attr} is `{dump(k)}`, "
-                         f"not to_unicode({keyp}).upper()", f.loc(c))
-        # every return/exit must go through storage: no early return that
-        # bypasses (e.g. `return dict.get(self, key)`)
-        for c in ast.walk(f.node):
-            if (isinstance(c, ast.Call) and isinstance(c.func, ast.Attribute)
-                    and isinstance(c.func.value, ast.Name)
-                    and c.func.value.id in ("dict", "OrderedDict")):
-                good = False
-                ctx.fail("C17/OVERRIDES", f"CaselessDict.{op}",
-                         f"direct call `{dump(c)[:50]}` bypasses key folding",
-                         f.loc(c))
-        if good:
-            ctx.ok("C17/OVERRIDES", f"CaselessDict.{op}", f.loc(),
-                   f"{len(sup)} super() storage call(s) with folded key")
-
-    # has_key (legacy) follows the same rule when present
-    hk = cd.methods.get("has_key")
-    if hk is not None:
-        env = SymEnv(hk.node)
-        for c in ast.walk(hk.node):
-            if isinstance(c, ast.Call) and is_super_call(c) and c.args:
-                k = env.expand_at(c.args[0])
-                ctx.check(normalised(k, hk.params[1], ctx, mod),
-                          "C17/OVERRIDES", "CaselessDict.has_key",
-                          f"key `{dump(k)}` not folded", hk.loc(c))
-
-    # ---- OVERRIDES: bulk operations -----------------------------------------
-    upd = cd.methods.get("update")
-    if upd is None:
-        ctx.fail("C17/OVERRIDES", "CaselessDict.update",
-                 "update not overridden: dict.update bypasses __setitem__",
-                 cd.loc())
-    else:
-        selfn = upd.params[0]
-        stores = [n for n in ast.walk(upd.node)
-                  if isinstance(n, ast.Assign)
-                  and any(isinstance(t, ast.Subscript)
-                          and isinstance(t.value, ast.Name)
-                          and t.value.id == selfn for t in n.targets)]
-        sup_upd = [c for c in ast.walk(upd.node)
-                   if isinstance(c, ast.Call) and is_super_call(c, "update")]
-        in_loop = False
-        for st in stores:
-            for loop in ast.walk(upd.node):
-                if isinstance(loop, ast.For) and any(x is st for x in ast.walk(loop)):
-                    in_loop = True
-        ok = bool(stores) and in_loop and not sup_upd
-        # both positional mappings and keywords must be consumed
-        srcs = dump(upd.node)
-        uses_args = upd.node.args.vararg is not None and \
-            upd.node.args.vararg.arg in {n.id for n in ast.walk(upd.node)
-                                         if isinstance(n, ast.Name)}
-        uses_kw = upd.node.args.kwarg is not None and \
-            upd.node.args.kwarg.arg in {n.id for n in ast.walk(upd.node)
-                                        if isinstance(n, ast.Name)}
-        merged = [c for c in ast.walk(upd.node) if isinstance(c, ast.Call)
-                  and isinstance(c.func, ast.Name) and c.func.id in ("dict", "OrderedDict")
-                  and (any(isinstance(a, ast.Starred) for a in c.args)
-                       or any(k.arg is None for k in c.keywords) or len(c.args) > 0)]
-        ctx.check(not merged, "C17/OVERRIDES", "CaselessDict.update no case-sensitive merge",
-                  f"update() first merges its arguments with `{dump(merged[0])[:50] if merged else ''}`: "
-                  f"a case-sensitive intermediate collapses repeated spellings before "
-                  f"the keys are folded, so 'last entry wins per upper-cased name' fails",
-                  upd.loc(merged[0]) if merged else upd.loc(),
-                  witness="update([('role',1),('ROLE',2),('role',3)]) -> ROLE=2",
-                  detail="pairs are stored in argument order")
-        ctx.check(ok and uses_args and uses_kw, "C17/OVERRIDES",
-                  "CaselessDict.update",
-                  "update must store every (key, value) of every positional "
-                  "mapping and of the keywords through self[key] = value",
-                  upd.loc(), detail="item-wise self[key] = value in a loop; "
-                  "*args and **kwargs both consumed")
-
-    init = cd.methods.get("__init__")
-    if init is None:
-        ctx.fail("C17/OVERRIDES", "CaselessDict.__init__",
-                 "no __init__: relies entirely on OrderedDict", cd.loc())
-    else:
-        sup_init = [c for c in ast.walk(init.node)
-                    if isinstance(c, ast.Call) and is_super_call(c, "__init__")]
-        forwards = any(any(isinstance(a, ast.Starred) for a in c.args)
-                       and any(k.arg is None for k in c.keywords)
-                       for c in sup_init)
-        ctx.check(bool(sup_init) and forwards, "C17/OVERRIDES",
-                  "CaselessDict.__init__",
-                  "__init__ must forward *args/**kwargs to OrderedDict.__init__ "
-                  "(which stores through the overridden __setitem__)",
-                  init.loc(), detail="forwards to super().__init__(*args, **kwargs)")
-
-    cp = cd.methods.get("copy")
-    if cp is None:
-        ctx.fail("C17/OVERRIDES", "CaselessDict.copy",
-                 "copy not overridden: OrderedDict.copy is fine only if it "
-                 "constructs type(self)", cd.loc())
-    else:
-        rets = [n for n in walk_no_nested(cp.node) if isinstance(n, ast.Return)]
-        good = bool(rets)
-        for r in rets:
-            v = r.value
-            good &= (isinstance(v, ast.Call) and isinstance(v.func, ast.Call)
-                     and isinstance(v.func.func, ast.Name)
-                     and v.func.func.id == "type")
-        ctx.check(good, "C17/OVERRIDES", "CaselessDict.copy",
-                  "copy must build type(self)(...) so the copy keeps folding keys",
-                  cp.loc(), detail="returns type(self)(...)")
-
-    # ---- OVERRIDES: subclasses must not bypass ----------------------------
-    subs = m.subclasses(cd)
-    n_sub = 0
-    for sc in subs:
-        for op in KEY_OPS + ["update", "copy"]:
-            f = sc.methods.get(op)
-            if f is None:
-                continue
-            n_sub += 1
-            keyp = f.params[1] if len(f.params) > 1 else None
-            env = SymEnv(f.node)
-            sup = [c for c in ast.walk(f.node)
-                   if isinstance(c, ast.Call) and is_super_call(c, op)]
-            via_self = [n for n in ast.walk(f.node)
-                        if isinstance(n, (ast.Subscript, ast.Call))
-                        and any(isinstance(x, ast.Name) and x.id == f.params[0]
-                                for x in ast.walk(n))]
-            raw_dict = [c for c in ast.walk(f.node)
-                        if isinstance(c, ast.Call)
-                        and isinstance(c.func, ast.Attribute)
-                        and isinstance(c.func.value, ast.Name)
-                        and c.func.value.id in ("dict", "OrderedDict")]
-            ctx.check((sup or via_self) and not raw_dict, "C17/OVERRIDES",
-                      f"{sc.qualname}.{op}",
-                      f"{sc.qualname}.{op} overrides a key-taking operation "
-                      f"without delegating to the folding implementation",
-                      f.loc(), detail="delegates to super()/self[...]")
-        f = sc.methods.get("__init__")
-        if f is not None:
-            sup = [c for c in ast.walk(f.node)
-                   if isinstance(c, ast.Call) and is_super_call(c, "__init__")]
-            ctx.check(bool(sup), "C17/OVERRIDES", f"{sc.qualname}.__init__",
-                      "subclass __init__ does not call super().__init__: "
-                      "initial items bypass key folding", f.loc(),
-                      detail="calls super().__init__")
-    ctx.extra["subclasses_examined"] = [s.qualname for s in subs]
-    if len(subs) < 13:
-        raise AnalysisError(f"C17: only {len(subs)} CaselessDict subclasses "
-                            f"found, 14 confirmed by hand")
-    ctx.floor("C17/OVERRIDES", 15)
-
-    # ---- SIGNATURE ---------------------------------------------------------
-    # dict signatures: get(key, default=None), setdefault(key, default=None),
-    # pop(key[, default]) -> KeyError when missing and no default given.
-    for op, want_default in (("get", True), ("setdefault", True)):
-        f = cd.methods.get(op)
-        if f is None:
-            continue
-        a = f.node.args
-        okd = len(f.params) == 3 and len(a.defaults) == 1 and \
-            isinstance(a.defaults[0], ast.Constant) and a.defaults[0].value is None
-        ctx.check(okd, "C17/SIGNATURE", f"CaselessDict.{op}",
-                  f"{op} must take (key, default=None) like dict.{op}", f.loc(),
-                  detail="(key, default=None)")
-    for op in ("__getitem__", "__delitem__", "__contains__"):
-        f = cd.methods.get(op)
-        if f is not None:
-            ctx.check(len(f.params) == 2 and not f.node.args.defaults,
-                      "C17/SIGNATURE", f"CaselessDict.{op}",
-                      f"{op} must take exactly (key)", f.loc(), detail="(key)")
-    f = cd.methods.get("__setitem__")
-    if f is not None:
-        ctx.check(len(f.params) == 3 and not f.node.args.defaults,
-                  "C17/SIGNATURE", "CaselessDict.__setitem__",
-                  "__setitem__ must take exactly (key, value)", f.loc(),
-                  detail="(key, value)")
-    # missing-key behaviour of __getitem__/__delitem__: the super() call is
-    # not wrapped in a handler that swallows KeyError
-    for op in ("__getitem__", "__delitem__"):
-        f = cd.methods.get(op)
-        if f is None:
-            continue
-        swallowed = any(isinstance(n, ast.Try) for n in ast.walk(f.node))
-        ctx.check(not swallowed, "C17/SIGNATURE", f"CaselessDict.{op} missing-key",
-                  f"{op} wraps the lookup in try: a missing key must raise "
-                  f"KeyError like dict", f.loc(), detail="KeyError propagates")
-    f = cd.methods.get("pop")
-    if f is not None:
-        # dict.pop(key) raises KeyError; pop(key, d) returns d.  An override
-        # with a plain default that is always forwarded cannot tell the two
-        # apart.
-        a = f.node.args
-        always_forwards = False
-        for c in ast.walk(f.node):
-            if isinstance(c, ast.Call) and is_super_call(c, "pop"):
-                if len(c.args) >= 2 and isinstance(c.args[1], ast.Name) and \
-                        len(f.params) == 3 and c.args[1].id == f.params[2]:
-                    always_forwards = True
-        plain_default = len(a.defaults) == 1 and isinstance(a.defaults[0], ast.Constant)
-        conditional = any(isinstance(n, (ast.If, ast.IfExp)) for n in ast.walk(f.node))
-        bad = plain_default and always_forwards and not conditional
-        ctx.check(not bad, "C17/SIGNATURE", "CaselessDict.pop missing-key",
-                  "pop(key) on a missing key returns the default (None) where "
-                  "dict.pop raises KeyError: the override always forwards its "
-                  "own default to super().pop", f.loc(),
-                  witness="CaselessDict().pop('x') -> None")
-
-    # ---- EQ-BOTH -----------------------------------------------------------
-    eq = cd.methods.get("__eq__")
-    if eq is None:
-        ctx.fail("C17/EQ-BOTH", "CaselessDict.__eq__",
-                 "no __eq__: OrderedDict.__eq__ is order-sensitive and does "
-                 "not fold the other operand's keys", cd.loc())
-    else:
-        other = eq.params[1]
-        env = SymEnv(eq.node)
-        cmp_sites = []
-        for n in walk_no_nested(eq.node):
-            if isinstance(n, ast.Compare) and any(
-                    isinstance(o, (ast.Eq, ast.NotEq)) for o in n.ops):
-                cmp_sites.append(n)
-        if not cmp_sites:
-            ctx.fail("C17/EQ-BOTH", "CaselessDict.__eq__",
-                     "no == comparison found in __eq__", eq.loc())
-        for n in cmp_sites:
-            ex = env.expand_at(n)
-            bad = _raw_other_uses(ex, other, ctx, mod)
-            ctx.check(not bad, "C17/EQ-BOTH", "CaselessDict.__eq__ other-operand",
-                      f"the other operand is compared without folding its keys: "
-                      f"`{dump(ex)[:90]}`", eq.loc(n),
-                      witness="CaselessDict(a=1) == {'a': 1} -> False",
-                      detail="other operand normalised before comparison")
-        # self side: compared via self.items()/dict(self) - stored keys are
-        # upper-case by OVERRIDES
-
-    # ---- CANON -------------------------------------------------------------
-    common.check_canonsort(ctx, "C17/CANON")
+        if sc.qualname == "cal.Component" or m.is_subclass(sc, "cal.Component") and own == ["__eq__"]:
+            continue        # Component.__eq__ is C20's (EQ-LAWS)
+        try:
+            n, fails = mapmodel.explore(ctx, sc.qualname, 1)
+        except AnalysisError as e:
+            raise AnalysisError(f"{sc.qualname} overrides {own}: {e}")
+        for (law, desc), detail in sorted(fails.items()):
+            if law == "pop" and "missing key returns None" in desc:
+                continue        # inherited K6
+            ctx.fail("C17/MAP-MODEL", f"{sc.name}: {law}: {desc}"[:170],
+                     f"{sc.qualname} (overrides {own}): {desc} ({detail})", sc.loc(), witness=detail)
+        ctx.ok("C17/MAP-MODEL", f"{sc.name} overrides {own}", sc.loc(), detail=f"{n} operations")
     common.check_canonical_orders(ctx, "C17/CANON")
 
 
